@@ -210,7 +210,7 @@ def ledgerJson (s : St) (idx : List Nat) : Json :=
     the failed (or successful) Initialize has returned, or while it is in flight (the peer answers after the Close).
     The client's state at the time of the Close is Connected / Initialized only after a handshake that succeeded and
     has returned (`Cfg.connected`); the transport is up in every case (`init`). -/
-def runHandshake (f : Facts) (detachedStart closeEndsStart : Bool) (t : Transport) (step : String) (during getSSE : Bool) : Json := Id.run do
+def runHandshake (f : Facts) (t : Transport) (step : String) (during getSSE : Bool) : Json := Id.run do
   -- `getHold` on the Streamable client: the handshake succeeds, the listening stream's GET is accepted and never answered
   let success := step == "none" || (step == "getHold" && t.http)
   let cfg : Cfg := { t := t, getSSE := getSSE && (success || during), connected := success && !during }
@@ -219,13 +219,12 @@ def runHandshake (f : Facts) (detachedStart closeEndsStart : Bool) (t : Transpor
   let closeEvs : List Ev := [.closeBegin, .closeEnd, .readerExit, .watcherExit, .closeWaitExit]
   let mut s := apply f cfg (init cfg) [.issue 0]
   let mut initOut := "hung"
-  if during && step == "endpointStall" && t = .sse && !closeEndsStart then
-    -- the handshake is inside `start`, waiting for the endpoint event in a select over {endpoint, caller's context, timer}
-    -- (regenerated: no case of `start`'s selects is recognised as ending on the transport's close): Close() ends the stream and
-    -- the reader, the wait goes on until the caller's context ends — the harness gives up before that.  Outcome left open
-    -- for a close case the extractor does not recognise.
+  if during && step == "endpointStall" && t = .sse && !f.selClosed then
+    -- the handshake is inside `start`, waiting for the endpoint event in a select without a case that ends on Close() (fact
+    -- `selClosed` of the legacy SSE client: `start`'s wait has the stream-context case and the call's wait a receive):
+    -- Close() ends the stream and the reader, the wait goes on until the caller's context ends — the harness gives up first
     s := apply f cfg s closeEvs
-    initOut := "hung|err"
+    initOut := "hung"
   else if during then
     s := apply f cfg s closeEvs
     s := apply f cfg s (answerFully sc 0)   -- the peer answers after the Close
@@ -243,10 +242,10 @@ def runHandshake (f : Facts) (detachedStart closeEndsStart : Bool) (t : Transpor
       s := apply f cfg s (if t.http then [.headers 0 false] else [.connErr 0])
     else if step == "exit" then
       s := apply f cfg s [.procExit, .readerExit, .watcherExit]
-    else if step == "getHold" && t = .sse && detachedStart then
-      -- the stream request of the handshake is sent with a context detached from the caller's (regenerated: `start`'s
-      -- request is not built with its own context parameter): the caller's deadline is no exit of this wait; Initialize is
-      -- still waiting when the harness gives up on it (the Close() that follows releases it)
+    else if step == "getHold" && t = .sse && !f.selCtx then
+      -- the stream request of the handshake is not bounded by the caller's context (fact `selCtx` of the legacy SSE client
+      -- includes `start`'s request): the caller's deadline is no exit of this wait; Initialize is still waiting when the
+      -- harness gives up on it (the Close() that follows releases it)
       pure ()
     else
       s := apply f cfg s [.ctxDone 0]
@@ -301,11 +300,7 @@ def handle (op : String) (j : Json) : Except String Json := do
     pure (runScript (factsOf tb t) sc)
   | "handshake" =>
     let t ← transportOf (← getStr j "t")
-    let starts := tb.bodies.filter (fun b => b.client = .sse && b.obtains && b.fn = Mcp.Str.ofString "start")
-    let detached := starts.isEmpty || starts.any (fun b => !b.reqCtx)
-    let startSel := tb.selects.filter (fun x => x.client = .sse && x.fn = Mcp.Str.ofString "start")
-    let closeEnds := !startSel.isEmpty && startSel.all (·.tctx)
-    pure (runHandshake (factsOf tb t) detached closeEnds t (← getStr j "step") ((← getStr j "close") == "during") (← getBool j "getSSE"))
+    pure (runHandshake (factsOf tb t) t (← getStr j "step") ((← getStr j "close") == "during") (← getBool j "getSSE"))
   | "serverReq" =>
     let sv ← serverOf (← getStr j "server")
     let ends ← (← getArr j "ends").toList.mapM (fun x => match x with | Json.str s => pure s | _ => throw "ends: string expected")
